@@ -1,7 +1,7 @@
 #!/bin/bash
-# usage: benignstore.sh <agent-worktree> <ID>  - stores a behaviour-preserving refactoring produced by a sub-agent under
+# usage: benignstore.sh <agent-worktree> <ID> [set=benign]  - stores a behaviour-preserving refactoring produced by a sub-agent under
 # seeded/benign/<ID>/ after confirming that it applies to /repo HEAD and that the stable-pass tests still pass with it.
-wt=$1; id=$2; out=/verif/seeded/benign/$id; sw=/tmp/sw-benign-$id
+wt=$1; id=$2; set_=${3:-benign}; out=/verif/seeded/$set_/$id; sw=/tmp/sw-$set_-$id
 git -C /repo worktree remove --force $sw 2>/dev/null
 git -C /repo worktree add -q --detach $sw HEAD || exit 2
 cd $sw
